@@ -15,21 +15,21 @@ from . import core, pbx
 from .pbx import FOPS, fr
 
 
-def impl_raw(rule, op, x, y):
+def impl_raw(rule, op, x, y, int_dtype=False):
     from pyuncertainnumber.pba import operation as O
     fn = {"frechet": O.frechet_op, "naive": O.new_vectorised_naive_frechet_op}[rule]
     try:
-        return pbx.canon_pair(fn(pbx.duck(*x), pbx.duck(*y), pbx.PYOPS[op]))
+        return pbx.canon_pair(fn(pbx.duck(*x, int_dtype=int_dtype), pbx.duck(*y, int_dtype=int_dtype), pbx.PYOPS[op]))
     except BaseException as e:  # noqa
         return ("err", core.err_kind(e))
 
 
-def impl_public(op, dep, x, y, bare=False):
+def impl_public(op, dep, x, y, bare=False, int_dtype=False):
     import warnings
     try:
         with warnings.catch_warnings():
             warnings.simplefilter("ignore")
-            X, Y = pbx.stair(*x), pbx.stair(*y)
+            X, Y = pbx.stair(*x, int_dtype=int_dtype), pbx.stair(*y, int_dtype=int_dtype)
             if bare:
                 r = pbx.PYOPS[op](X, Y)
             else:
@@ -163,18 +163,32 @@ def gen_cases(ctx):
         cases.append(("raw-naive", "naive", "mul", pbx.rand_small_box(rng, n, sign=rng.choice([None, "str", "neg"])),
                       pbx.rand_small_box(rng, n, sign=rng.choice([None, "str", "pos"]))))
     # stream 2: public API at n = 200
-    signs = ["pos", "neg", "str", None]
+    signs = ["pos", "neg", "str", None, "pos0", "neg0"]
+    # integer-dtype operand (as Staircase(left=[1,2,..]) gives) against a half-integer operand: exact in binary64
+    for _ in range(ctx.scale(16, 400)):
+        op = rng.choice(["add", "sub", "mul", "div"])
+        sx, sy = rng.choice(["pos", "neg"] if op == "div" else signs), rng.choice(["pos", "neg"] if op == "div" else signs)
+        x = pbx.int_box200(rng, sx)
+        l2, r2 = pbx.int_box200(rng, sy)
+        y = ([v + (0.5 if sy != "neg" else -0.5) for v in l2], [v + (0.5 if sy != "neg" else -0.5) for v in r2])
+        cases.append(("public-intdtype", "public", op, x, y) if rng.random() < 0.5 else ("public-intdtype", "public", op, y, x))
+    for _ in range(ctx.scale(120, 3000)):
+        n = rng.choice([2, 3, 4])
+        x = pbx.rand_small_box(rng, n, sign=rng.choice([None, "pos"]))
+        l2, r2 = pbx.rand_small_box(rng, n, sign="pos")
+        y = ([v + 0.5 for v in l2], [v + 0.5 for v in r2])
+        cases.append(("raw-intdtype", "frechet", rng.choice(["add", "mul"]) if min(x[0]) >= 0 else "add", x, y))
     for _ in range(ctx.scale(40, 1500)):
         op = rng.choice(["add", "sub", "mul", "div"])
         sx, sy = rng.choice(signs), rng.choice(signs)
-        if op == "div" and sy in ("str", None):
+        if op == "div" and sy in ("str", None, "pos0", "neg0"):
             sy = rng.choice(["pos", "neg"])
         x, y = pbx.int_box200(rng, sx), pbx.int_box200(rng, sy)
         cases.append(("public-int", "public", op, x, y))
     for _ in range(ctx.scale(24, 600)):
         op = rng.choice(["add", "sub", "mul", "div"])
         sx, sy = rng.choice(signs), rng.choice(signs)
-        if op == "div" and sy in ("str", None):
+        if op == "div" and sy in ("str", None, "pos0", "neg0"):
             sy = rng.choice(["pos", "neg"])
         l1, r1, k1 = pbx.lib_box200(rng, sx)
         l2, r2, k2 = pbx.lib_box200(rng, sy)
@@ -207,12 +221,13 @@ def run(ctx: core.Check):
         triv = (n == 1 and x[0] == x[1] and y[0] == y[1])
         ctx.count((rule, op, x, y), not triv, stream.split(":")[0])
         ctx.bump("signs:" + pbx.sign_class(*x) + "x" + pbx.sign_class(*y))
-        exact = stream in ("raw-small", "raw-naive") or (stream == "public-int" and op != "div")
+        exact = stream in ("raw-small", "raw-naive", "raw-intdtype") or (stream in ("public-int", "public-intdtype") and op != "div")
+        idt = stream.endswith("intdtype")
         if rule == "public":
             bare = rng.random() < 0.3
-            impl = impl_public(op, "f", x, y, bare)
+            impl = impl_public(op, "f", x, y, bare, int_dtype=idt)
         else:
-            impl = impl_raw(rule, op, x, y)
+            impl = impl_raw(rule, op, x, y, int_dtype=idt)
         model = pbx.parse_reply(rep)
         if pbx.same(impl, model, exact):
             ctx.tie_ok()
